@@ -35,6 +35,16 @@ def gen_cases(tier, seed):
                         "sched": r.choice(["default", "random"]), "kind": r.choice(["self", "two", "long", "lit", "unneeded", "needed"]),
                         "registry": r.random() < 0.4, "dry": r.random() < 0.2})
             continue
+        q = r.random()
+        if q < 0.04:
+            out.append({"seed": s, "mode": "observer_fault", "members": r.choice([1, 2, 3]), "compose": r.choice(["tuple", "flat", "nested"]), "W": 1, "sched": "default", "n": 2})
+            continue
+        if q < 0.16:
+            # registry runs in which a store operation or modified-time query (of a stored call, a source or a registered literal) raises
+            out.append({"seed": s, "mode": "registry_fault", "n": r.randint(2, 16), "W": r.choice([1, 2, 4, 8]), "sched": r.choice(["default", "random"]),
+                        "kind": r.choice(["exc", "base", "base"]), "only": r.choice([None, None, ["mt"], ["rd", "wr_before", "wr_after"]]),
+                        "stale_W": r.choice([None, 1, 1, 2]), "max_errors": r.choice([0, 0, 2, None])})
+            continue
         ncalls = r.randint(0, 30 if tier == "quick" else 80)
         W = r.choice([1, 2, 3, 4, 8, ncalls + 5, ncalls + 1, 16])
         d = {"seed": s, "mode": "acyclic", "n": ncalls, "W": W, "sched": r.choice(["default", "random"]),
@@ -77,9 +87,85 @@ class Watch:
         self.drv.stop()
 
 
+def run_observer_fault(desc):
+    """A bundled display (it owns an update thread) next to a user observer that raises in __enter__ / __exit__: run must still end and
+    every thread it created must exit."""
+    from vmon import recobserver
+
+    W = Watch(desc)
+    with W:
+        bad, info = recobserver.run_with_faulty_member(desc["seed"], desc["members"], True, desc["compose"])
+    res = {"status": "ok", "counters": {"observer_fault_runs": 1}, "nontrivial": True, "sig": f"obsfault|{info}"}
+    if bad:
+        res.update(status="violation", detail=f"[failing observer next to a bundled display: {info}] {bad}", mechanism="leftover-activity", witness=info, taint=True)
+    return res
+
+
+def run_registry_fault(desc):
+    from vmon import history, regmodel
+
+    rng = random.Random(desc["seed"])
+    rp = regmodel.gen_regplan(rng, desc["n"], cfg={"p_slit": 0.3})
+    S = regmodel.Session(rp, desc["seed"])
+    H = S.H
+    if rng.random() < 0.5:
+        S.run(None, W=2)  # start from an up-to-date state half of the time
+        for _ in range(rng.randint(0, 2)):
+            dl = [i for i in S.reg if rp.role[i] in ("stored", "dsrc", "slit")]
+            if dl:
+                S.delete(rng.choice(dl))
+    out_ids = history.choose_out(rng, S)
+    exp = S.expect(out_ids, None)
+    nb = len(exp.execs) + 2 * len(exp.writes) + len(exp.reads) + len(S.reg)
+    if desc["only"] == ["mt"]:
+        nb = len(S.reg)
+    f = history.Fault(H, k=rng.randint(1, max(1, nb)), kind=desc["kind"], only=desc["only"])
+    f.install()
+    W = Watch(desc)
+    kw = {}
+    if desc["stale_W"]:
+        kw["stale_check_max_workers"] = desc["stale_W"]
+    try:
+        with W:
+            res, exc = S.run(out_ids, W=desc["W"], sched=desc["sched"], max_errors=desc["max_errors"], **kw)
+            seq_at_return = H.seq
+            in_flight = H.in_flight + H.mt_in_flight
+    finally:
+        f.uninstall()
+    bad = None
+    leaked = S.leaked
+    if in_flight:
+        bad = f"{in_flight} call(s)/store operation(s) still executing when run returned/raised"
+    elif leaked:
+        time.sleep(0.05)
+        bad = f"thread(s) created by run still alive after it returned/raised: {[t.name for t in leaked]}"
+    else:
+        time.sleep(0)
+        if H.seq != seq_at_return:
+            bad = f"{H.seq - seq_at_return} event(s) were stamped after run returned"
+    if bad is None and f.fired is not None and exc is None:
+        bad = f"fault fired at {f.fired} but run returned normally"
+    lit_mt = bool(f.fired and f.fired[0] == "mt" and any(rp.role[i] == "slit" and S.store_name[i] == f.fired[1] for i in S.reg))
+    res_ = {"status": "ok", "counters": {"registry_fault_runs": 1, "registry_faults_fired": int(f.fired is not None),
+                                          "registry_faults_in_stale_check": int(bool(f.fired and f.fired[0] == "mt")),
+                                          "registered_literal_mtime_faults": int(lit_mt), "thread_census_checks": 1},
+            "sets": {"registry_fault_outcomes": [type(exc).__name__]}, "nontrivial": f.fired is not None,
+            "sig": hashlib.sha1(("\n".join(S.describe(100)) + f"|{desc['W']}|{f.k}|{desc['kind']}|{desc['only']}").encode()).hexdigest()[:16]}
+    if bad:
+        res_.update(status="violation", detail=f"[registry run, fault {desc['kind']} at {f.fired}] {bad}", mechanism="leftover-activity", taint=True,
+                    witness={"plan": S.describe(100), "history": H.compact_history(400)})
+    if W.drv.error:
+        return {"status": "inconclusive", "detail": "deadlock watch error: " + W.drv.error}
+    return res_
+
+
 def run_case(desc):
     if desc["mode"] == "cyclic":
         return run_cyclic(desc)
+    if desc["mode"] == "observer_fault":
+        return run_observer_fault(desc)
+    if desc["mode"] == "registry_fault":
+        return run_registry_fault(desc)
     usable = quiesce.available()
     W = Watch(desc)
     with W:
@@ -216,6 +302,10 @@ def finalize(agg, tier):
         reasons.append("deadlock detector took fewer sampling rounds than there were runs")
     if c["cyclic_examined"] < 20:
         reasons.append("fewer than 20 cyclic plans with the cycle among examined nodes")
+    if c["registry_faults_fired"] < 30:
+        reasons.append("fewer than 30 registry runs with a store fault")
+    if c["observer_fault_runs"] < 10:
+        reasons.append("fewer than 10 runs with a failing observer next to a bundled display")
     if c["runs_all_calls_fail"] < 20:
         reasons.append("fewer than 20 runs in which every call fails")
     return reasons
